@@ -1279,7 +1279,8 @@ impl<'a> BenchContext<'a> {
                     sum = sum.saturating_add(sample_count);
                 }
 
-                (sum / median_samples.len() as u128) as MaxCountUInt
+                // Avoid dividing by zero when no samples were recorded.
+                (sum / median_samples.len().max(1) as u128) as MaxCountUInt
             };
 
             Some(StatsSet {
@@ -1323,7 +1324,10 @@ impl<'a> BenchContext<'a> {
             alloc_info.tallies.add_to_total(&mut alloc_total_tallies);
         }
 
-        let sample_size = f64::from(sample_size);
+        // Avoid `0.0 / 0.0` (NaN) when no samples were recorded, such as with
+        // `--sample-count 0`. All numerators are zero in that case.
+        let sample_size = f64::from(sample_size.max(1));
+        let total_count_f64 = total_count.max(1) as f64;
         Stats {
             sample_count: sample_count as u32,
             iter_count: total_count,
@@ -1396,8 +1400,8 @@ impl<'a> BenchContext<'a> {
                     }
                 },
                 mean: AllocTally {
-                    count: alloc_total_max_count as f64 / total_count as f64,
-                    size: alloc_total_max_size as f64 / total_count as f64,
+                    count: alloc_total_max_count as f64 / total_count_f64,
+                    size: alloc_total_max_size as f64 / total_count_f64,
                 },
             }
             .transpose(),
@@ -1454,8 +1458,8 @@ impl<'a> BenchContext<'a> {
                         mean: {
                             let tally = alloc_total_tallies.get(op);
                             AllocTally {
-                                count: tally.count as f64 / total_count as f64,
-                                size: tally.size as f64 / total_count as f64,
+                                count: tally.count as f64 / total_count_f64,
+                                size: tally.size as f64 / total_count_f64,
                             }
                         },
                     })
